@@ -101,9 +101,10 @@ class Nodes(Query[Node]):
 		def factory() -> Node:
 			base = EntryPath(via)
 			elems = list(reversed(base.de_identify().elements))
-			index = elems.index(tag)
-			if index == -1:
+			if tag not in elems:
 				raise Errors.NodeNotFound(via, tag)
+
+			index = elems.index(tag)
 
 			slices = len(elems) - index
 			found_path = EntryPath.join(*base.elements[:slices])
